@@ -248,13 +248,18 @@ class GeckoAsyncSpaMan(ABC, AsyncTasks):
     async def async_reset(self) -> None:
         """Reset the spa manager"""
         self._spa_descriptors = None
-        if self._facade is not None:
-            await self._facade.disconnect()
+        facade = self._facade
+        if facade is not None:
+            await facade.disconnect()
         if self._spa is not None:
             # Disconnecting a connected spa announces CLIENT_FACADE_TEARDOWN, clients
             # must still be able to reach the facade they are asked to tear down
             await self._spa.disconnect()
             self._spa = None
+        if self._facade is not None and self._facade is not facade:
+            # A handshake that completed while the client was being told about the
+            # disconnect built a facade in the meantime, don't leave its tasks behind
+            await self._facade.disconnect()
         self._facade = None
         # The sequence pump may have located spas while the client was being told
         # about the disconnect above, IDLE with descriptors would be a dead end
